@@ -111,6 +111,10 @@ def prop_of(op):
         return "C04"
     if op in ("limit_depth", "limit_bytes", "check_bytes"):
         return "C18"
+    if op in ("unsigned_rule", "signed_rule", "maximum_rule"):
+        return "C15"
+    if op == "raw_string":
+        return "C16"
     return "C01"
 
 
@@ -128,8 +132,18 @@ def fam_of(a):
     return None
 
 
+# rules whose outcome depends on a helper state the table cannot describe, or whose rule_t is only an
+# approximation for the grammar analysis (DESIGN.md 2.4): never evaluated by Den
+OPAQUE = ("tao::pegtl::http::chunk", "tao::pegtl::http::chunk_data", "tao::pegtl::http::chunk_size",
+          "tao::pegtl::internal::raw_string_open<", "tao::pegtl::internal::at_raw_string_close<",
+          "tao::pegtl::internal::raw_string_until<")
+
+
 def view_of(name):
     """documented view of a type name; kids are type-name strings.  None if unknown."""
+    cn = canon(name)
+    if any(cn == o or (o.endswith("<") and cn.startswith(o)) for o in OPAQUE):
+        return View("opaque")
     base, args = parse_type(name)
     if not base.startswith(PEGTL):
         return None
@@ -198,6 +212,12 @@ def view_of(name):
         return View(b, p=lits)
     if b == "separated_seq" and args:
         return View(b, kids=args)
+    if b in ("unsigned_rule", "signed_rule") and not args:
+        return View(b)
+    if b == "maximum_rule" and len(args) == 2 and lits[1] is not None:
+        return View(b, p=[int(ch) for ch in str(lits[1])])
+    if b == "raw_string" and len(args) >= 3 and all(v is not None for v in lits[:3]):
+        return View(b, kids=args[3:], p=lits[:3])
     if b == "everything":
         return View("everything")
     if b == "if_must" and internal:
